@@ -5,7 +5,7 @@
 EXTENDS WKTFamily
 VARIABLES i, kw, n, bare
 vars == <<i, kw, n, bare>>
-Init == i \in 1..Len(FamilySeq) /\ kw \in 1..3 /\ n \in 1..5 /\ bare \in BOOLEAN
+Init == i \in 1..Len(FamilySeq) /\ kw \in 1..3 /\ n \in 1..5 /\ bare \in BareModes
 Next == UNCHANGED vars
 Spec == Init /\ [][Next]_vars
 RoundTrip == LET g == FamilySeq[i] ts == Respell(g, kw, n, bare) r == Parse(ts) IN r.ok /\ r.v = g
